@@ -19,11 +19,11 @@ impl Permissioner {
                 return Ok(());
             }
 
-            if let Some(topic_permissions) =
-                stream_permissions.topics.as_ref().unwrap().get(&topic_id)
-            {
-                if topic_permissions.manage_topic || topic_permissions.read_topic {
-                    return Ok(());
+            if let Some(topics) = stream_permissions.topics.as_ref() {
+                if let Some(topic_permissions) = topics.get(&topic_id) {
+                    if topic_permissions.manage_topic || topic_permissions.read_topic {
+                        return Ok(());
+                    }
                 }
             }
         }
@@ -48,11 +48,11 @@ impl Permissioner {
                 return Ok(());
             }
 
-            if let Some(topic_permissions) =
-                stream_permissions.topics.as_ref().unwrap().get(&stream_id)
-            {
-                if topic_permissions.manage_topic || topic_permissions.read_topic {
-                    return Ok(());
+            if let Some(topics) = stream_permissions.topics.as_ref() {
+                if let Some(topic_permissions) = topics.get(&stream_id) {
+                    if topic_permissions.manage_topic || topic_permissions.read_topic {
+                        return Ok(());
+                    }
                 }
             }
         }
@@ -117,11 +117,11 @@ impl Permissioner {
                 return Ok(());
             }
 
-            if let Some(topic_permissions) =
-                stream_permissions.topics.as_ref().unwrap().get(&topic_id)
-            {
-                if topic_permissions.manage_topic {
-                    return Ok(());
+            if let Some(topics) = stream_permissions.topics.as_ref() {
+                if let Some(topic_permissions) = topics.get(&topic_id) {
+                    if topic_permissions.manage_topic {
+                        return Ok(());
+                    }
                 }
             }
         }
